@@ -230,5 +230,9 @@ kf("C16", "C16-user-function-named-RayDesc", "a user function named RayDesc is s
 kf("C16", "C16-user-function-named-isnan", "a user function named isnan (not a WGSL builtin) is captured by naga's non-standard builtin table: the call no longer reaches the user's function",
    ["C16|*|FN|*|isnan", "C16|*|FN2|*|isnan"])
 
+# ---------------------------------------------------------------- C17 (bindings / interfaces)
+kf("C17", "C17-spirv-invariant-dropped", "the SPIR-V backend never emits the Invariant decoration: `@builtin(position) @invariant` outputs (bare or struct members) carry only BuiltIn Position",
+   ["C17|spirv1.1:invariant|*", "C17|spirv1.4:invariant|*"])
+
 json.dump(K, open("known_findings.json", "w"), indent=1)
 print(len(K), "entries")
